@@ -20,6 +20,15 @@
 #define F_MAXK 24
 #define F_MAXEV 200
 
+/* Packet kinds added by the session 6 extension (numbered behind the kinds of c02_ttx.h, which C02 shares):
+ * TOP tables, MOT / POP object pages, M/29, X/28/1, X/28/4, X/27/4, 8/30 format 2. */
+enum { PK_BTT = PK_KINDS, PK_AIT, PK_MPT, PK_MOT, PK_POP, PK_M29_0, PK_M29_4, PK_X28_1, PK_X28_4, PK_X27_4, PK_830_2, F_KINDS };
+static const char *const f_new_kind_name[F_KINDS - PK_KINDS] = { "btt", "ait", "mpt", "mot", "pop", "m29-0", "m29-4", "x28-1", "x28-4", "x27-4", "830f2" };
+static const char *f_kind_name(int kind)
+{
+	return kind < PK_KINDS ? pk_kind_name[kind] : kind < F_KINDS ? f_new_kind_name[kind - PK_KINDS] : "?";
+}
+
 struct snap_page {
 	int pgno, subno;
 	vbi_char text[3][25 * 41];
@@ -34,8 +43,17 @@ struct snap {
 	struct evrec ev[F_MAXEV];
 	uint8_t cls[0x800];
 	uint16_t clsub[0x800];
+	/* TOP: the index page 0x900 the library composes from the Additional Information Tables, and the title
+	   vbi_page_title() finds for every transmitted or listed page number (hash; 0 = none) */
+	int top_ok;
+	uint64_t top_hash;
+	uint64_t title_hash;
+	int n_titles;
 	int overflow;
 };
+
+/* page numbers vbi_page_title() is asked for: the transmitted pages and the pages an AIT lists */
+static int f_title_pgno[32], f_n_title_pgno;
 
 static const vbi_wst_level f_levels[3] = { VBI_WST_LEVEL_1, VBI_WST_LEVEL_1p5, VBI_WST_LEVEL_2p5 };
 static const char *const f_level_name[3] = { "1.0", "1.5", "2.5" };
@@ -84,10 +102,28 @@ static void take_snapshot(vbi_decoder *vbi, struct snap *s)
 					h = f_hash(h, pg.nav_index, sizeof pg.nav_index);
 					h = f_hash(h, pg.page_opacity, sizeof pg.page_opacity);
 					h = f_hash(h, pg.boxed_opacity, sizeof pg.boxed_opacity);
+					/* DRCS colour look-up table (X/28/1, M/29/1): 2 + 8 + 32 entries */
+					if (pg.drcs_clut) h = f_hash(h, pg.drcs_clut, 42);
 					sp->misc[l] = h;
 				}
 				vbi_unref_page(&pg);
 			}
+		}
+	}
+	s->top_ok = 0; s->top_hash = 0; s->title_hash = 1469598103934665603ull; s->n_titles = 0;
+	memset(&pg, 0, sizeof pg);
+	if (vbi_fetch_vt_page(vbi, &pg, 0x900, 0, VBI_WST_LEVEL_2p5, 25, TRUE)) {
+		s->top_ok = 1;
+		s->top_hash = f_hash(1469598103934665603ull, pg.text, sizeof pg.text[0] * 25 * 41);
+		vbi_unref_page(&pg);
+	}
+	for (i = 0; i < f_n_title_pgno; i++) {
+		char buf[48];
+		memset(buf, 0, sizeof buf);
+		if (vbi_page_title(vbi, f_title_pgno[i], 0, buf)) {
+			s->n_titles++;
+			s->title_hash = f_hash(s->title_hash, &f_title_pgno[i], sizeof f_title_pgno[i]);
+			s->title_hash = f_hash(s->title_hash, buf, 41);
 		}
 	}
 	s->nev = n_ev < F_MAXEV ? n_ev : F_MAXEV;
@@ -96,6 +132,26 @@ static void take_snapshot(vbi_decoder *vbi, struct snap *s)
 }
 
 static long f_runs;
+
+/* VBI_EVENT_PROG_ID (8/30 format 2 programme identification): every field the library decodes from the
+ * thirteen Hamming 8/4 bytes goes into the event record; all other events as in C02. */
+static void f_on_event(vbi_event *ev, void *ud)
+{
+	if (ev->type == VBI_EVENT_PROG_ID && ev->ev.prog_id) {
+		const vbi_program_id *pid = ev->ev.prog_id;
+		if (n_ev >= MAXEV) { ev_overflow = 1; return; }
+		evlog[n_ev].type = ev->type;
+		evlog[n_ev].pos = cur_pos;
+		evlog[n_ev].pgno = (int)pid->cni;
+		evlog[n_ev].subno = (int)pid->pil;
+		evlog[n_ev].flags = (int)pid->channel | (int)pid->cni_type << 4 | (pid->luf ? 0x100 : 0) | (pid->mi ? 0x200 : 0)
+			| (pid->prf ? 0x400 : 0) | (int)pid->pcs_audio << 12;
+		evlog[n_ev].pn = (int)pid->pty;
+		n_ev++;
+		return;
+	}
+	on_event(ev, ud);
+}
 
 /* Feeds the packets (skip[i] != 0: line lost) into a fresh decoder. */
 static void run_stream(const struct ttx_pkt *pk, int n, const uint8_t *skip, struct snap *out)
@@ -107,7 +163,7 @@ static void run_stream(const struct ttx_pkt *pk, int n, const uint8_t *skip, str
 	vf_phase("vbi_decoder_new");
 	vbi = vbi_decoder_new();
 	if (!vbi) { vf_fail("harness:alloc", "vbi_decoder_new failed"); memset(out, 0, sizeof *out); return; }
-	vbi_event_handler_register(vbi, VBI_EVENT_TTX_PAGE | VBI_EVENT_NETWORK | VBI_EVENT_NETWORK_ID, on_event, NULL);
+	vbi_event_handler_register(vbi, VBI_EVENT_TTX_PAGE | VBI_EVENT_NETWORK | VBI_EVENT_NETWORK_ID | VBI_EVENT_PROG_ID, f_on_event, NULL);
 	n_ev = 0; ev_overflow = 0;
 	for (i = 0; i < n; i++) {
 		cur_pos = i;
@@ -159,6 +215,15 @@ static int snap_cmp_frame(const struct snap *a, const struct snap *b, int strict
 			snprintf(f_why, sizeof f_why, "vbi_classify_page(%03x) = type 0x%02x subno %04x instead of 0x%02x/%04x", 0x100 + i, a->cls[i], a->clsub[i], b->cls[i], b->clsub[i]);
 			return 1;
 		}
+	if (a->top_ok != b->top_ok || a->top_hash != b->top_hash) {
+		snprintf(f_why, sizeof f_why, "the TOP index page 900 %s (%s in the reference run)", a->top_ok ? (b->top_ok ? "has other contents" : "can be fetched") : "cannot be fetched",
+			 b->top_ok ? "can be fetched" : "cannot");
+		return 1;
+	}
+	if (a->n_titles != b->n_titles || a->title_hash != b->title_hash) {
+		snprintf(f_why, sizeof f_why, "vbi_page_title() finds %d titles instead of %d, or other titles", a->n_titles, b->n_titles);
+		return 1;
+	}
 	return 0;
 }
 
@@ -225,11 +290,13 @@ static int l1_mosaic_context(const uint8_t *row, int col)
 
 static int f_x26_moved;
 
-static void gen_x26(struct vf_rng *r, struct tx *t, int ndes)
+static void gen_x26(struct vf_rng *r, struct tx *t, int ndes, unsigned invocation)
 {
 	unsigned trips[MAXX26 * 13];
 	int n = 0, max = ndes * 13, rows[6], nr = 0, i, rr;
 	memset(t->x26_pos, 0, sizeof t->x26_pos);
+	/* an object invocation (bit 31: present) comes first, at the origin of the page */
+	if (invocation) trips[n++] = invocation & 0x3FFFF;
 	for (rr = 1; rr <= 24 && nr < 6; rr++)
 		if ((t->rows_sent & (1u << rr)) && vf_chance(r, 2, 3)) rows[nr++] = rr;
 	for (i = 0; i < nr && n < max - 2; i++) {
@@ -310,6 +377,8 @@ static int mip_slot(int lo, int *entry)
 	return 9 + (lo >> 4) / 3;
 }
 
+static int f_pop_pgno;             /* the object page of this transmission, or 0 */
+
 static int make_mip_unit(int ti, const int *pgnos, int npg, int hexpg)
 {
 	struct tx *t = &txs[ti];
@@ -330,24 +399,431 @@ static int make_mip_unit(int ti, const int *pgnos, int npg, int hexpg)
 		if (mip_slot(pgnos[i] & 0xFF, &e2) != y || e2 >= 20) continue;
 		p.d[2 + e2 * 2] = tx_ham8(0x1); p.d[2 + e2 * 2 + 1] = tx_ham8(0x0);
 	}
+	/* the object page, when this packet covers it: code 0xE6 (POP), its function is known from here on */
+	if (f_pop_pgno && (f_pop_pgno >> 8) == (hexpg >> 8)) {
+		int e2;
+		if (mip_slot(f_pop_pgno & 0xFF, &e2) == y && e2 < 20) { p.d[2 + e2 * 2] = tx_ham8(0x6); p.d[2 + e2 * 2 + 1] = tx_ham8(0xE); }
+	}
 	unit_add(u, &p);
 	return u;
 }
 
+/* ------------------------------------------------------------------ */
+/* Session 6: TOP tables, MOT / POP, M/29, X/28/1, X/28/4, X/27/4, 8/30 format 2 */
+
+static uint8_t f_tx_kind[MAXTX];   /* 0: a normal page (or the MIP); else the packet kind of the rows of a table / object page */
+static int f_fam_top, f_fam_mot;   /* what this transmission contains */
+static int f_obj_pgno, f_obj_row, f_obj_col, f_pop_pgno, f_mot_variant;
+static int f_btt_tx_first;
+static int f_n830f2;
+
+/* tables whose rows take effect in the decoder as they arrive (magazine / network state), not when the page is stored */
+static int kind_immediate(int kind) { return kind == PK_BTT || kind == PK_MPT || kind == PK_MOT; }
+
+static void f_nib_row(struct ttx_pkt *p, int mag, int y, int kind, int ti, const uint8_t nib[40])
+{
+	int i;
+	memset(p, 0, sizeof *p);
+	p->mag = mag; p->y = y; p->kind = kind; p->tx = ti; p->row = y;
+	tx_mrag(p->d, mag, y);
+	for (i = 0; i < 40; i++) p->d[2 + i] = tx_ham8(nib[i]);
+}
+
+/* designation (or, in object pages, the byte with the same place and coding) + 13 Hamming 24/18 triplets */
+static void f_trip_row(struct ttx_pkt *p, int mag, int y, int kind, int ti, int des, const unsigned trip[13])
+{
+	int i;
+	memset(p, 0, sizeof *p);
+	p->mag = mag; p->y = y; p->kind = kind; p->tx = ti; p->row = y >= 26 ? des : y;
+	tx_mrag(p->d, mag, y);
+	p->d[2] = tx_ham8((unsigned)des);
+	for (i = 0; i < 13; i++) tx_ham24(p->d + 3 + i * 3, trip[i]);
+}
+
+/* TOP page link (EN 300 706 11.2, as BTT rows 21-23, AIT and MPT-EX carry it): magazine, tens, units,
+ * four subcode digits, one more nibble (BTT: the function of the linked table) */
+static void f_toplink(uint8_t *nib, int pgno, int subno, int last)
+{
+	nib[0] = (uint8_t)((pgno >> 8) & 15); nib[1] = (uint8_t)((pgno >> 4) & 15); nib[2] = (uint8_t)(pgno & 15);
+	nib[3] = (uint8_t)((subno >> 12) & 15); nib[4] = (uint8_t)((subno >> 8) & 15);
+	nib[5] = (uint8_t)((subno >> 4) & 15); nib[6] = (uint8_t)(subno & 15);
+	nib[7] = (uint8_t)(last & 15);
+}
+
+/* BTT / MPT rows 1-20: one nibble per decimal page number, forty pages a row */
+static int btt_slot(int pgno, int *col)
+{
+	int lin = ((pgno >> 8) - 1) * 100 + ((pgno >> 4) & 15) * 10 + (pgno & 15);
+	*col = lin % 40;
+	return lin / 40 + 1;
+}
+
+static int is_bcd_page(int pgno) { return (pgno & 15) <= 9 && ((pgno >> 4) & 15) <= 9; }
+
+static int f_new_table_tx(struct vf_rng *r, int pgno, int subno, int kind, int *clock)
+{
+	struct tx *m = &txs[n_tx];
+	memset(m, 0, sizeof *m);
+	memset(f_x26_attr[n_tx], 0, sizeof f_x26_attr[n_tx]);
+	f_b2b[n_tx] = 0;
+	f_tx_kind[n_tx] = (uint8_t)kind;
+	m->pgno = pgno; m->mag = pgno >> 8; m->subno = subno;
+	m->ctl = (net_serial ? CB(11) : 0) | (vf_chance(r, 1, 2) ? CB(4) : 0);
+	*clock += vf_range(r, 1, 5);
+	make_header_text(m, *clock);
+	return n_tx++;
+}
+
+static int f_open_unit(int ti)
+{
+	struct tx *t = &txs[ti];
+	struct ttx_pkt p;
+	int u = n_units++;
+	unit_len[u] = 0; unit_mag[u] = t->mag;
+	memset(&p, 0, sizeof p);
+	p.mag = t->mag; p.tx = ti; p.y = 0; p.kind = PK_HEADER; p.row = 0;
+	tx_header(p.d, t->mag, t->pgno & 0xFF, t->subno, t->ctl, 0, t->hdr);
+	unit_add(u, &p);
+	return u;
+}
+
+/* same page number twice in a row in one magazine: a time filling header goes in between */
+static void f_queue_unit(int u, int pgno, int *last_pg)
+{
+	int mg = (pgno >> 8) & 7;
+	if (last_pg[mg] == pgno) { int f = make_filler_unit(mg ? mg : 8); queue[mg][qlen[mg]++] = f; }
+	queue[mg][qlen[mg]++] = u;
+	last_pg[mg] = pgno;
+}
+
+static void unit_insert(int u, int pos, const struct ttx_pkt *p)
+{
+	int i;
+	if (unit_len[u] >= 40) return;
+	if (pos > unit_len[u]) pos = unit_len[u];
+	for (i = unit_len[u]; i > pos; i--) unit_buf[u][i] = unit_buf[u][i - 1];
+	unit_buf[u][pos] = *p;
+	unit_len[u]++;
+}
+
+/* The TOP tables of one network: fixed when the network is generated, every transmission of a table repeats them. */
+static struct {
+	int ait_pgno, ait_sub, mpt_pgno, ait_slot, mpt_slot;
+	int npg; int pgno[8]; uint8_t code[8], nsub[8];      /* listed pages: the transmitted decimal pages and a few others */
+	int nent; int ent_pgno[4]; uint8_t ent_text[4][12];    /* AIT entries */
+	uint8_t fillcode[20][40], fillsub[20][40];
+} f_top;
+
+static void gen_top_tables(struct vf_rng *r, const int *pgnos, int npages)
+{
+	static const uint8_t lows[] = { 0xF1, 0xF2, 0xF3, 0xF4 };
+	int i, j, k = (int)vf_below(r, 4), nb = 0;
+	f_top.ait_pgno = 0x100 | lows[k];
+	f_top.mpt_pgno = (vf_chance(r, 1, 2) || f_tn % 8 == 1) ? (0x100 | lows[(k + 1 + (int)vf_below(r, 3)) & 3]) : 0;
+	f_top.ait_sub = vf_chance(r, 1, 2) ? 0 : vf_range(r, 1, 3);
+	f_top.ait_slot = (int)vf_below(r, 5);
+	do f_top.mpt_slot = (int)vf_below(r, 5); while (f_top.mpt_slot == f_top.ait_slot);
+	f_top.npg = 0; f_top.nent = 0;
+	for (i = 0; i < npages && f_top.npg < 6; i++) {
+		static const uint8_t other[] = { 8, 8, 9, 10, 11, 2, 3, 8 };
+		if (!is_bcd_page(pgnos[i])) continue;
+		j = f_top.npg++;
+		f_top.pgno[j] = pgnos[i];
+		/* the first decimal page opens a block, the second a group: 4/5 block, 6/7 group, 8-11 normal page,
+		   odd codes and 10 announce subpages (MPT) */
+		f_top.code[j] = nb == 0 ? (uint8_t)(4 + vf_below(r, 2)) : nb == 1 ? (uint8_t)(6 + vf_below(r, 2)) : other[vf_below(r, sizeof other)];
+		nb++;
+		f_top.nsub[j] = (uint8_t)vf_below(r, 12);
+	}
+	/* one or two pages nobody transmits */
+	for (i = vf_range(r, 1, 2); i > 0 && f_top.npg < 8; i--) {
+		int pg = f_top.pgno[0] + (i == 1 ? 0x001 : 0x010), dup = 0;
+		if (!is_bcd_page(pg) || !f_top.npg) continue;
+		for (j = 0; j < f_top.npg; j++) if (f_top.pgno[j] == pg) dup = 1;
+		if (dup) continue;
+		j = f_top.npg++;
+		f_top.pgno[j] = pg; f_top.code[j] = (uint8_t)(vf_chance(r, 1, 2) ? 6 : 8); f_top.nsub[j] = (uint8_t)vf_below(r, 10);
+	}
+	for (i = 0; i < 20; i++)
+		for (j = 0; j < 40; j++) {
+			f_top.fillcode[i][j] = (uint8_t)(vf_chance(r, 3, 4) ? 0 : vf_chance(r, 1, 2) ? 8 : vf_below(r, 16));
+			f_top.fillsub[i][j] = (uint8_t)(vf_chance(r, 3, 4) ? 0 : vf_below(r, 16));
+		}
+	/* AIT: a title for every block and group page, and for one normal page */
+	for (i = 0; i < f_top.npg && f_top.nent < 4; i++) {
+		const char *w;
+		int c;
+		if (f_top.code[i] >= 8 && !(f_top.nent >= 2 && vf_chance(r, 1, 2))) continue;
+		j = f_top.nent++;
+		f_top.ent_pgno[j] = f_top.pgno[i];
+		w = words[vf_below(r, 12)];
+		memset(f_top.ent_text[j], 0x20, 12);
+		for (c = 0; c < 12 && w[c]; c++) f_top.ent_text[j][c] = (uint8_t)w[c];
+		if (c < 11 && vf_chance(r, 1, 2)) { f_top.ent_text[j][c + 1] = (uint8_t)('1' + j); }
+	}
+	f_n_title_pgno = 0;
+	for (i = 0; i < npages && f_n_title_pgno < 32; i++) f_title_pgno[f_n_title_pgno++] = pgnos[i];
+	for (i = 0; i < f_top.npg && f_n_title_pgno < 32; i++) {
+		for (j = 0; j < f_n_title_pgno; j++) if (f_title_pgno[j] == f_top.pgno[i]) break;
+		if (j == f_n_title_pgno) f_title_pgno[f_n_title_pgno++] = f_top.pgno[i];
+	}
+}
+
+/* Basic TOP Table, page 1F0: the rows (of 1-20) which hold a listed page, and row 21 with the links to AIT and MPT */
+static int make_btt_unit(struct vf_rng *r, int ti)
+{
+	struct ttx_pkt p;
+	uint8_t nib[40];
+	int u = f_open_unit(ti), row, i, col, at21 = -1, nrows = 0, rows[21];
+	for (row = 1; row <= 20; row++) {
+		int used = 0;
+		for (i = 0; i < f_top.npg; i++) if (btt_slot(f_top.pgno[i], &col) == row) used = 1;
+		if (used) rows[nrows++] = row;
+	}
+	at21 = (int)vf_below(r, (unsigned)nrows + 1);
+	for (i = 0; i <= nrows; i++) {
+		if (i == at21) {
+			int k;
+			for (k = 0; k < 40; k++) nib[k] = (k % 8) == 7 ? 0 : 0xF;      /* no link: page number FFF */
+			f_toplink(nib + f_top.ait_slot * 8, f_top.ait_pgno, f_top.ait_sub, 2 /* AIT */);
+			if (f_top.mpt_pgno) f_toplink(nib + f_top.mpt_slot * 8, f_top.mpt_pgno, 0, 1 /* MPT */);
+			f_nib_row(&p, txs[ti].mag, 21, PK_BTT, ti, nib);
+			unit_add(u, &p);
+		}
+		if (i < nrows) {
+			int k;
+			row = rows[i];
+			memcpy(nib, f_top.fillcode[row - 1], 40);
+			for (k = 0; k < f_top.npg; k++) if (btt_slot(f_top.pgno[k], &col) == row) nib[col] = f_top.code[k];
+			f_nib_row(&p, txs[ti].mag, row, PK_BTT, ti, nib);
+			unit_add(u, &p);
+		}
+	}
+	return u;
+}
+
+/* Multi-Page Table: number of subpages of every decimal page, same row layout as the BTT */
+static int make_mpt_unit(int ti)
+{
+	struct ttx_pkt p;
+	uint8_t nib[40];
+	int u = f_open_unit(ti), row, k, col;
+	for (row = 1; row <= 20; row++) {
+		int used = 0;
+		for (k = 0; k < f_top.npg; k++) if (btt_slot(f_top.pgno[k], &col) == row) used = 1;
+		if (!used) continue;
+		memcpy(nib, f_top.fillsub[row - 1], 40);
+		for (k = 0; k < f_top.npg; k++) if (btt_slot(f_top.pgno[k], &col) == row) nib[col] = f_top.nsub[k];
+		f_nib_row(&p, txs[ti].mag, row, PK_MPT, ti, nib);
+		unit_add(u, &p);
+	}
+	return u;
+}
+
+/* Additional Information Table: two entries a row, each a TOP page link (8 Hamming 8/4 bytes) and twelve
+ * odd parity title characters */
+static int make_ait_unit(struct vf_rng *r, int ti)
+{
+	struct ttx_pkt p;
+	int u = f_open_unit(ti), row, e, i;
+	for (row = 1; (row - 1) * 2 < f_top.nent; row++) {
+		memset(&p, 0, sizeof p);
+		p.mag = txs[ti].mag; p.y = row; p.kind = PK_AIT; p.tx = ti; p.row = row;
+		tx_mrag(p.d, p.mag, row);
+		for (e = 0; e < 2; e++) {
+			uint8_t nib[8];
+			int k = (row - 1) * 2 + e;
+			if (k < f_top.nent) f_toplink(nib, f_top.ent_pgno[k], 0x3F7F, 0);
+			else { memset(nib, 0xF, 8); nib[7] = 0; }
+			for (i = 0; i < 8; i++) p.d[2 + e * 20 + i] = tx_ham8(nib[i]);
+			for (i = 0; i < 12; i++) p.d[2 + e * 20 + 8 + i] = tx_par(k < f_top.nent ? f_top.ent_text[k][i] : 0x20);
+		}
+		unit_add(u, &p);
+	}
+	(void)r;
+	return u;
+}
+
+/* Magazine Organization Table mFE: the row (of 1-8) with the object link of page `linked`, and row 19 with the
+ * object page links (entry 0: GPOP, 1-3: POP).  default_type != 0: the POP link carries a default object. */
+static uint64_t f_content_seed;     /* every transmission of a table of one network has the same contents */
+
+static int make_mot_unit(struct vf_rng *order, int ti, int linked, int link_idx, int pop_pgno, int gpop, int default_type, unsigned default_addr)
+{
+	struct ttx_pkt p;
+	struct vf_rng g, *r = &g;
+	uint8_t nib[40];
+	int u = f_open_unit(ti), e, y = mip_slot(linked & 0xFF, &e), i, first19 = vf_chance(order, 1, 2), k;
+	vf_rng_seed(r, vf_seed, f_content_seed);
+	for (k = 0; k < 2; k++) {
+		if ((k == 0) == first19) {
+			for (i = 0; i < 40; i++) nib[i] = (i % 10) < 3 ? 0xF : 0;     /* dead links: page number mFF */
+			for (i = 0; i < 4; i++) {
+				uint8_t *q = nib + i * 10;
+				if (!((i == 0 && gpop) || i == link_idx)) continue;
+				q[0] = (uint8_t)((pop_pgno >> 8) & 7); q[1] = (uint8_t)((pop_pgno >> 4) & 15); q[2] = (uint8_t)(pop_pgno & 15);
+				q[3] = (uint8_t)vf_below(r, 4);                             /* number of subpages */
+				q[4] = (uint8_t)(vf_chance(r, 1, 2) ? 1 : vf_below(r, 16)); /* fallback: side panels, black background substitution */
+				if (i == link_idx && default_type) {
+					q[5] = (uint8_t)default_type;
+					q[6] = (uint8_t)(default_addr & 15); q[7] = (uint8_t)((default_addr >> 4) & 15);
+				}
+			}
+			f_nib_row(&p, txs[ti].mag, 19, PK_MOT, ti, nib);
+			unit_add(u, &p);
+		} else {
+			for (i = 0; i < 40; i++) nib[i] = (uint8_t)(vf_chance(r, 3, 4) ? 0 : (i & 1) ? vf_below(r, 8) : 0);
+			if (e < 20) { nib[e * 2] = (uint8_t)(link_idx | (gpop ? 8 : 0)); nib[e * 2 + 1] = 0; }
+			f_nib_row(&p, txs[ti].mag, y, PK_MOT, ti, nib);
+			unit_add(u, &p);
+		}
+	}
+	return u;
+}
+
+/* Object page: pointer table in packet 1 (byte 2 odd), the object in packet `dpkt`, optionally one more packet
+ * with an object nothing invokes.  Object = definition triplet, set active position, G0 characters, termination. */
+static int make_pop_unit(struct vf_rng *order, int ti, int type, int group, int half, int dpkt, int extra)
+{
+	struct ttx_pkt p[3];
+	struct vf_rng g, *r = &g;
+	unsigned t[13];
+	int u = f_open_unit(ti), i, n = 0, idx, s1 = txs[ti].subno & 15, np = 0, o[3] = { 0, 1, 2 };
+	static const char text[] = "Obj";
+	vf_rng_seed(r, vf_seed, f_content_seed + 1);
+	idx = (dpkt - 3) * 13 + (int)vf_below(r, 3);
+	/* pointer table: triplet 0 unused, triplets 1-12 = two nine bit pointers each, 511: no object */
+	t[0] = vf_below(r, 1u << 18);
+	for (i = 1; i < 13; i++) t[i] = 0x3FFFF;
+	i = group * 3 + type;                                   /* 1 ... 12 */
+	t[i] = half ? (0x1FFu | (unsigned)idx << 9) : ((unsigned)idx | 0x1FFu << 9);
+	f_trip_row(&p[np++], txs[ti].mag, 1, PK_POP, ti, 1 + 2 * (int)vf_below(r, 8), t);
+	/* the object */
+	for (i = 0; i < 13; i++) t[i] = tx_triplet(63, 0x1F, 0x7F);
+	n = idx % 13;
+	t[n++] = tx_triplet(40, (unsigned)(0x14 + type), (unsigned)(group << 5 | half << 4 | s1));
+	if (n < 13) t[n++] = tx_triplet((unsigned)(40 + f_obj_row), 0x04, (unsigned)f_obj_col);
+	if (n < 12 && vf_chance(r, 1, 2)) t[n++] = tx_triplet((unsigned)f_obj_col, 0x00, (unsigned)vf_range(r, 1, 6));   /* foreground colour */
+	for (i = 0; i < 3 && n < 13; i++) t[n++] = tx_triplet((unsigned)(f_obj_col + i), 0x09, (unsigned)text[i]);
+	f_trip_row(&p[np++], txs[ti].mag, dpkt, PK_POP, ti, dpkt <= 4 ? 2 * (int)vf_below(r, 8) : (int)vf_below(r, 16), t);
+	if (extra) {
+		int y = dpkt + vf_range(r, 1, 5);
+		for (i = 0; i < 13; i++) t[i] = tx_triplet(63, 0x1F, 0x7F);
+		t[0] = tx_triplet(40, 0x17, (unsigned)(3 << 5 | s1));
+		t[1] = tx_triplet(41, 0x04, 2);
+		t[2] = tx_triplet(2, 0x09, 'u');
+		f_trip_row(&p[np++], txs[ti].mag, y, PK_POP, ti, y <= 4 ? 2 * (int)vf_below(r, 8) : (int)vf_below(r, 16), t);
+	}
+	if (vf_chance(order, 1, 2)) for (i = np - 1; i > 0; i--) { int j = (int)vf_below(order, (unsigned)i + 1), x = o[i]; o[i] = o[j]; o[j] = x; }
+	for (i = 0; i < np; i++) unit_add(u, &p[o[i]]);
+	return u;
+}
+
+/* X/28 and M/29, designation 0 and 4, format 1: same layout as tx_x28_0() */
+static void f_x28_fmt1(struct vf_rng *r, struct ttx_pkt *p, int mag, int y, int des, int kind, int ti)
+{
+	uint16_t clut[16];
+	int i;
+	for (i = 0; i < 16; i++) clut[i] = (uint16_t)vf_below(r, 0x1000);
+	memset(p, 0, sizeof *p);
+	p->mag = mag; p->y = y; p->kind = kind; p->tx = ti; p->row = des;
+	tx_x28_0(p->d, mag, y, (unsigned)(net_region + (int)vf_below(r, 7)), 0, clut, vf_below(r, 32), vf_below(r, 32), vf_below(r, 2), vf_below(r, 8));
+	p->d[2] = tx_ham8((unsigned)des);
+}
+
+/* X/28/1: DRCS colour look-up tables, 8 + 32 entries of five bits from triplet 1 on */
+static void f_x28_1(struct vf_rng *r, struct ttx_pkt *p, int mag, int ti)
+{
+	unsigned t[13];
+	int i;
+	for (i = 0; i < 13; i++) t[i] = vf_below(r, 1u << 18);
+	f_trip_row(p, mag, 28, PK_X28_1, ti, 1, t);
+}
+
+/* X/27/4: six links of two triplets each as the decoder under test reads them (link function, units, magazine
+ * relative to the page's, tens; then the subpage set); the last three bytes are not used */
+static void f_x27_4(struct vf_rng *r, struct ttx_pkt *p, int mag, int ti, const int pgno[6])
+{
+	unsigned t[13];
+	int i;
+	for (i = 0; i < 6; i++) {
+		unsigned m = (unsigned)(((pgno[i] >> 8) ^ mag) & 7);
+		t[i * 2] = (unsigned)(i & 3) | vf_below(r, 4) << 2 | (unsigned)(pgno[i] & 15) << 7 | m << 12 | (unsigned)((pgno[i] >> 4) & 7) << 15;
+		t[i * 2 + 1] = vf_below(r, 1u << 18);
+	}
+	t[12] = vf_below(r, 1u << 18);
+	f_trip_row(p, mag, 27, PK_X27_4, ti, 4, t);
+}
+
+/* 8/30 format 2 (9.8.2): designation 2 or 3, initial page, thirteen Hamming 8/4 bytes (programme identification),
+ * status display */
+static void f_830_2(struct ttx_pkt *p, int des, int init_pgno, const uint8_t nib[13])
+{
+	int i;
+	memset(p, 0, sizeof *p);
+	p->mag = 8; p->y = 30; p->kind = PK_830_2; p->tx = -1; p->row = des;
+	tx_mrag(p->d, 8, 30);
+	p->d[2] = tx_ham8((unsigned)des);
+	tx_link(p->d + 3, 0, init_pgno, 0x3F7F);
+	for (i = 0; i < 13; i++) p->d[9 + i] = tx_ham8(nib[i]);
+	for (i = 0; i < 20; i++) p->d[22 + i] = tx_par((unsigned)"ZVBI verification   "[i]);
+}
+
+/* what the MOT and the object page of this network say (fixed per network, every transmission repeats it) */
+static struct { int link_idx, mot_pop_pgno, gpop, default_type; unsigned addr; int type, group, half, dpkt, extra, pop_sub, x27_4; } f_obj;
+static struct { int at, what; } f_evq[12];
+static int f_nevq;
+
+static void evq_add(int at, int what)
+{
+	int k;
+	if (f_nevq >= 12) return;
+	for (k = f_nevq++; k > 0 && f_evq[k - 1].at > at; k--) f_evq[k] = f_evq[k - 1];
+	f_evq[k].at = at; f_evq[k].what = what;
+}
+
+static void emit_table(struct vf_rng *r, int what, int *clock, int *last_pg)
+{
+	int ti, u;
+	switch (what) {
+	case PK_BTT: ti = f_new_table_tx(r, 0x1F0, 0, PK_BTT, clock); u = make_btt_unit(r, ti); break;
+	case PK_AIT: ti = f_new_table_tx(r, f_top.ait_pgno, f_top.ait_sub, PK_AIT, clock); u = make_ait_unit(r, ti); break;
+	case PK_MPT: ti = f_new_table_tx(r, f_top.mpt_pgno, 0, PK_MPT, clock); u = make_mpt_unit(ti); break;
+	case PK_MOT:
+		ti = f_new_table_tx(r, (f_obj_pgno & 0xF00) | 0xFE, 0, PK_MOT, clock);
+		u = make_mot_unit(r, ti, f_obj_pgno, f_obj.link_idx, f_obj.mot_pop_pgno, f_obj.gpop, f_obj.default_type, f_obj.addr);
+		break;
+	case PK_POP:
+		ti = f_new_table_tx(r, f_pop_pgno, f_obj.pop_sub, PK_POP, clock);
+		u = make_pop_unit(r, ti, f_obj.type, f_obj.group, f_obj.half, f_obj.dpkt, f_obj.extra);
+		break;
+	default: return;
+	}
+	f_queue_unit(u, txs[ti].pgno, last_pg);
+}
+
 static void gen_small_network(struct vf_rng *r)
 {
-	struct { int pgno, nsub, sub[2], national, flof, nx26, x28; unsigned ctl; } pd[5];
+	struct { int pgno, nsub, sub[2], national, flof, nx26, x28, x28_4, x28_1; unsigned ctl; } pd[5];
 	int hex_pi = -1, hex_sent = 0, mip_done = 0, hex_after_mip = 0;
 	static const int rowpool[] = { 1, 2, 3, 4, 5, 10, 11, 22, 23, 24 };
 	int npages, nm, mags[3], i, j, ntx, clock = 43200, last_pg[8], rot, np = 0, chain_sub = -1;
+	int obj_pi = -1, n_m29 = 0, want_m29, evq_done = 0;
+	uint8_t nib830[13];
 
 	f_clock_pgno = 0;
 	net_serial = vf_chance(r, 1, 2);
 	net_region = 16;
 	attr_seen = 0;
 	gen_header_template(r, 1);
-	n_tx = 0; n_mp = 0; n_units = 0; f_n830 = 0;
+	n_tx = 0; n_mp = 0; n_units = 0; f_n830 = 0; f_n830f2 = 0;
 	memset(qlen, 0, sizeof qlen);
+	memset(f_tx_kind, 0, sizeof f_tx_kind);
+	f_fam_top = f_tn % 4 == 1;
+	f_fam_mot = f_tn % 4 == 3;
+	f_content_seed = 900000u + (uint64_t)f_tn * 4;
+	f_obj_pgno = f_pop_pgno = 0; f_n_title_pgno = 0; f_nevq = 0; f_btt_tx_first = -1;
+	memset(&f_obj, 0, sizeof f_obj);
 	nm = vf_range(r, 1, 3);
 	for (i = 0; i < nm; i++) { int ok; do { mags[i] = vf_range(r, 1, 8); ok = 1; for (j = 0; j < i; j++) if (mags[j] == mags[i]) ok = 0; } while (!ok); }
 	npages = vf_range(r, 2, 4);
@@ -365,6 +841,9 @@ static void gen_small_network(struct vf_rng *r)
 		pd[i].flof = vf_chance(r, 1, 2);
 		pd[i].nx26 = vf_chance(r, 1, 2) ? 0 : vf_range(r, 1, 2);
 		pd[i].x28 = vf_chance(r, 1, 3);
+		/* Level 3.5 colour map (with or without X/28/0 in front of it) and DRCS colour look-up table */
+		pd[i].x28_4 = vf_chance(r, 1, 5);
+		pd[i].x28_1 = vf_chance(r, 1, 8);
 		/* the other control bits of the header ("any Teletext packet"): newsflash, subtitle (the page is stored
 		 * under the subcode without these bits), suppress header, update, interrupted sequence, inhibit display */
 		pd[i].ctl = 0;
@@ -374,6 +853,8 @@ static void gen_small_network(struct vf_rng *r)
 		if (vf_chance(r, 1, 10)) pd[i].ctl |= CB(9);
 		if (vf_chance(r, 1, 16)) pd[i].ctl |= CB(10);
 	}
+	if (f_tn % 3 == 0) { pd[0].x28_4 = 1; pd[0].x28 = vf_chance(r, 1, 2); }
+	if (f_tn % 3 == 1) pd[0].x28_1 = 1;
 	/* one page is a carousel: its two subpages are as a rule sent one right after the other
 	 * (no other header of the magazine in between), and the carousel comes round again */
 	rot = (int)vf_below(r, (unsigned)npages);
@@ -399,12 +880,81 @@ static void gen_small_network(struct vf_rng *r)
 		pd[hex_pi].nsub = 0;
 		f_hex_pgno = pd[hex_pi].pgno;
 	}
-	ntx = vf_range(r, 5, 9);
+	ntx = (f_fam_top || f_fam_mot) ? vf_range(r, 4, 7) : vf_range(r, 5, 9);
+	/* One transmission in four carries TOP: the Basic TOP Table 1F0, one Additional Information Table and mostly a
+	 * Multi-Page Table.  Either the BTT comes first and the tables it links are recognised when they arrive, or
+	 * they come first (function unknown, stored as received) and once more behind the BTT. */
+	if (f_fam_top) {
+		int all[5], k;
+		for (k = 0; k < npages; k++) all[k] = pd[k].pgno;
+		pd[0].flof = 0;            /* TOP navigation shows on pages without FLOF links */
+		gen_top_tables(r, all, npages);
+		if (vf_chance(r, 1, 2)) {
+			evq_add(0, PK_BTT);
+			evq_add(vf_range(r, 1, ntx - 1), PK_AIT);
+			if (f_top.mpt_pgno) evq_add(vf_range(r, 1, ntx - 1), PK_MPT);
+			if (vf_chance(r, 1, 3)) evq_add(vf_range(r, 2, ntx), PK_BTT);
+		} else {
+			int at = vf_range(r, 1, ntx - 2);
+			evq_add(0, PK_AIT);
+			if (f_top.mpt_pgno) evq_add(vf_range(r, 0, at), PK_MPT);
+			evq_add(at, PK_BTT);
+			evq_add(vf_range(r, at + 1, ntx), PK_AIT);
+			if (f_top.mpt_pgno && vf_chance(r, 2, 3)) evq_add(vf_range(r, at + 1, ntx), PK_MPT);
+		}
+	}
+	/* One transmission in four has a Magazine Organization Table and an object page.  The object is displayed on a
+	 * normal page at Level 2.5: as the default object of the MOT link (page without X/26), by an invocation in
+	 * X/26/0 through the MOT link, or by an invocation through the links of X/27/4 (the MOT link is dead then). */
+	if (f_fam_mot) {
+		static const int orow[] = { 7, 8, 9, 13, 14, 15, 16, 17, 18, 19, 20, 21 };    /* rows no text row and no lower half of a double height row uses */
+		static const int subs[] = { 0, 1, 2, 0x12 };
+		int tens_lo = 0, tens_n = 8, pmag, k, at;
+		do obj_pi = (int)vf_below(r, 2); while (obj_pi == hex_pi);    /* one of the first two pages: they are always transmitted */
+		f_obj_pgno = pd[obj_pi].pgno;
+		/* not a newsflash, subtitle or inhibited page: everything outside a box is transparent there, the object too */
+		pd[obj_pi].ctl &= ~(CB(5) | CB(6) | CB(10));
+		f_mot_variant = (f_tn / 4) % 3;
+		f_obj_row = orow[vf_below(r, sizeof orow / sizeof orow[0])];
+		f_obj_col = vf_range(r, 0, 30);
+		f_obj.type = vf_range(r, 1, 3); f_obj.group = (int)vf_below(r, 4); f_obj.half = (int)vf_below(r, 2);
+		f_obj.dpkt = vf_range(r, 3, 7); f_obj.extra = vf_chance(r, 2, 3);
+		f_obj.pop_sub = subs[vf_below(r, 4)];
+		f_obj.addr = (unsigned)(f_obj.group << 5 | f_obj.half << 4 | (f_obj.pop_sub & 15));
+		f_obj.link_idx = vf_range(r, 1, 3);
+		f_obj.gpop = f_mot_variant != 0 && vf_chance(r, 1, 2);
+		/* the object page: a hexadecimal number the X/27/4 link format of the decoder can express (tens 0-7); with a
+		   MIP in the network, if possible one the MIP packet covers, so that its function is known from there on */
+		pmag = mags[vf_below(r, (unsigned)nm)];
+		if (hex_pi >= 0 && (pd[hex_pi].pgno & 15) > 9 && ((pd[hex_pi].pgno >> 4) & 15) < 6) {
+			pmag = pd[hex_pi].pgno >> 8;
+			tens_lo = ((pd[hex_pi].pgno >> 4) & 15) / 3 * 3; tens_n = 3;
+		}
+		do f_pop_pgno = pmag << 8 | (tens_lo + (int)vf_below(r, (unsigned)tens_n)) << 4 | vf_range(r, 10, 15); while (f_pop_pgno == f_hex_pgno);
+		f_obj.mot_pop_pgno = f_mot_variant == 2 ? ((f_pop_pgno & 0xF00) | 0xFF) : f_pop_pgno;
+		f_obj.default_type = f_mot_variant == 0 ? f_obj.type : 0;
+		f_obj.x27_4 = f_mot_variant == 2;
+		pd[obj_pi].nx26 = f_mot_variant == 0 ? 0 : vf_range(r, 1, 2);
+		/* the object page comes once, or twice with the same contents (then a lost packet of one transmission
+		   is made up for by the other unless the later one erases the page) */
+		at = vf_range(r, 0, ntx - 1);
+		evq_add(at, PK_POP);
+		if ((f_tn / 4) % 2 == 1) evq_add(vf_range(r, at + 1, ntx), PK_POP);
+		evq_add(vf_range(r, 0, ntx), PK_MOT);
+		if (vf_chance(r, 1, 3)) evq_add(vf_range(r, 0, ntx), PK_MOT);
+		(void)k;
+	}
+	/* Every network has one or two magazine related packets M/29/0 or M/29/4 (they belong to no page), and up to two
+	 * 8/30 format 2 packets with the same programme identification. */
+	want_m29 = vf_chance(r, 1, 3) ? 2 : 1;
+	for (i = 0; i < 13; i++) nib830[i] = (uint8_t)vf_below(r, 16);
 	for (i = 0; i < 8; i++) last_pg[i] = -1;
 	for (i = 0; i < ntx; i++) {
 		int chained = chain_sub >= 0, pi, si, mg, rr, u, nrows;
-		struct tx *t = &txs[n_tx];
+		struct tx *t;
 		struct mpage *mp;
+		while (!chained && evq_done < f_nevq && f_evq[evq_done].at <= i) emit_table(r, f_evq[evq_done++].what, &clock, last_pg);
+		t = &txs[n_tx];
 		if (chained) pi = rot;
 		else if (np < npages) pi = np++;
 		else if (np++ == npages && vf_chance(r, 3, 4)) pi = rot;
@@ -446,12 +996,34 @@ static void gen_small_network(struct vf_rng *r)
 				t->link[j].subno = vf_chance(r, 1, 2) ? 0x3F7F : (int)(vf_below(r, 8) << 4 | vf_below(r, 10));
 			}
 		}
-		if (pd[pi].nx26) gen_x26(r, t, pd[pi].nx26);
+		if (pd[pi].nx26) {
+			unsigned inv = 0;
+			/* invocation of the object at the origin of the page: address 48 + pointer packet (POP) or 56 + (GPOP),
+			   mode 0x10 + object type, data = group, pointer half, S1 of the object page */
+			if (pi == obj_pi && f_mot_variant != 0) inv = tx_triplet(f_obj.gpop ? 56 : 48, (unsigned)(0x10 + f_obj.type), f_obj.addr) | 1u << 31;
+			gen_x26(r, t, pd[pi].nx26, inv);
+		}
 		t->has_x28 = pd[pi].x28;
 		mp_apply(t);
 		if (chained ? vf_chance(r, 1, 8) : (last_pg[mg] == t->pgno || vf_chance(r, 1, 10))) { u = make_filler_unit(t->mag); queue[mg][qlen[mg]++] = u; }
 		else if (chained) f_b2b[n_tx] = 1;
 		u = make_tx_unit(n_tx);
+		{
+			struct ttx_pkt p;
+			if (pd[pi].x28_4) {
+				f_x28_fmt1(r, &p, t->mag, 28, 4, PK_X28_4, n_tx);
+				/* behind X/28/0 as a rule (then only the colour map is taken from it), sometimes in front of it */
+				unit_insert(u, t->has_x28 && vf_chance(r, 3, 4) ? 2 : vf_range(r, 1, unit_len[u]), &p);
+			}
+			if (pd[pi].x28_1) { f_x28_1(r, &p, t->mag, n_tx); unit_insert(u, vf_range(r, 1, unit_len[u]), &p); }
+			if (pi == obj_pi && f_obj.x27_4) {
+				int lk[6];
+				for (j = 0; j < 6; j++) lk[j] = (int)(vf_range(r, 1, 8) << 8 | vf_below(r, 8) << 4 | vf_below(r, 16));
+				lk[f_obj.gpop ? 0 : 1] = f_pop_pgno;
+				f_x27_4(r, &p, t->mag, n_tx, lk);
+				unit_insert(u, vf_range(r, 1, unit_len[u]), &p);
+			}
+		}
 		queue[mg][qlen[mg]++] = u;
 		last_pg[mg] = t->pgno;
 		n_tx++;
@@ -487,10 +1059,28 @@ static void gen_small_network(struct vf_rng *r)
 			queue[0][qlen[0]++] = u;
 			f_n830++;
 		}
+		if (f_n830f2 < 2 && vf_chance(r, 1, 3)) {
+			struct ttx_pkt p;
+			f_830_2(&p, 2 + (f_n830f2 & 1), 0x100 | (int)(vf_below(r, 10) << 4), nib830);
+			u = n_units++; unit_len[u] = 0; unit_mag[u] = 8;
+			unit_add(u, &p);
+			queue[0][qlen[0]++] = u;
+			f_n830f2++;
+		}
+		if (n_m29 < want_m29 && chain_sub < 0 && (vf_chance(r, 1, 3) || i >= ntx - 2)) {
+			struct ttx_pkt p;
+			int m29mag = mags[vf_below(r, (unsigned)nm)], des = ((f_tn + n_m29) & 1) ? 4 : 0;
+			f_x28_fmt1(r, &p, m29mag, 29, des, des ? PK_M29_4 : PK_M29_0, -1);
+			u = n_units++; unit_len[u] = 0; unit_mag[u] = m29mag;
+			unit_add(u, &p);
+			queue[m29mag & 7][qlen[m29mag & 7]++] = u;
+			n_m29++;
+		}
 	}
+	while (evq_done < f_nevq) emit_table(r, f_evq[evq_done++].what, &clock, last_pg);
 	for (i = 0; i < 8; i++) {
 		int any = 0;
-		for (j = 0; j < qlen[i]; j++) if (unit_buf[queue[i][j]][0].kind != PK_830) any = 1;
+		for (j = 0; j < qlen[i]; j++) if (unit_buf[queue[i][j]][0].kind != PK_830 && unit_buf[queue[i][j]][0].kind != PK_830_2) any = 1;
 		if (any) { int u = make_filler_unit(i ? i : 8); queue[i][qlen[i]++] = u; }
 	}
 	n_mp = 0;
@@ -514,6 +1104,19 @@ static int byte_role(const struct ttx_pkt *p, int j)
 	case PK_X27: return j == 2 || j == 39 ? RO_ADDR : j < 39 ? RO_HAM8 : RO_UNPROT;
 	case PK_830: return j == 2 ? RO_ADDR : j < 9 ? RO_HAM8 : RO_UNPROT;
 	case PK_MIP: return RO_HAM8;
+	/* BTT rows 1-20 (page type codes), 21-23 (links), MPT (subpage counts), MOT rows 1-14 and 19-24: forty Hamming 8/4 bytes */
+	case PK_BTT: case PK_MPT: case PK_MOT: return RO_HAM8;
+	/* AIT: two entries of 8 Hamming 8/4 bytes (page link) and 12 odd parity title characters.  The title is not a
+	   text row of a page; the statement says nothing about it beyond the page number clause. */
+	case PK_AIT: return ((j - 2) % 20) < 8 ? RO_HAM8 : RO_UNPROT;
+	/* object page packets 1-25 (and X/26): one Hamming 8/4 byte which says what the packet holds (bit 0: pointer
+	   table), then thirteen triplets */
+	case PK_POP: return j == 2 ? RO_ADDR : RO_HAM24;
+	case PK_M29_0: case PK_M29_4: case PK_X28_1: case PK_X28_4: return j == 2 ? RO_ADDR : RO_HAM24;
+	/* X/27/4: designation, six links of two triplets, three bytes nobody reads */
+	case PK_X27_4: return j == 2 ? RO_ADDR : j < 39 ? RO_HAM24 : RO_UNPROT;
+	/* 8/30 format 2: designation, initial page (6), programme identification (13), status display */
+	case PK_830_2: return j == 2 ? RO_ADDR : j < 22 ? RO_HAM8 : RO_UNPROT;
 	default: return RO_UNPROT;
 	}
 }
@@ -552,10 +1155,10 @@ static const char *fault_desc(const struct ttx_pkt *p, int pi, const char *what)
 {
 	static char b[200];
 	if (p->tx >= 0)
-		snprintf(b, sizeof b, "packet %d (%s %d of page %03x/%02x, mag %d, %s mode): %s", pi, pk_kind_name[p->kind], p->row,
+		snprintf(b, sizeof b, "packet %d (%s %d of page %03x/%02x, mag %d, %s mode): %s", pi, f_kind_name(p->kind), p->row,
 			 txs[p->tx].pgno, txs[p->tx].subno, p->mag, net_serial ? "serial" : "parallel", what);
 	else
-		snprintf(b, sizeof b, "packet %d (%s, mag %d, %s mode): %s", pi, pk_kind_name[p->kind], p->mag, net_serial ? "serial" : "parallel", what);
+		snprintf(b, sizeof b, "packet %d (%s, mag %d, %s mode): %s", pi, f_kind_name(p->kind), p->mag, net_serial ? "serial" : "parallel", what);
 	return b;
 }
 
@@ -673,14 +1276,30 @@ static const char *check_parity_rule(const struct snap *cur, int pi, int hdr_tex
 
 static struct ttx_pkt f_alt[F_SLOTS];
 
-/* uncorrectable header: some subset of the pages in progress is abandoned, nothing else */
+/* removes the pages numbered pgno from a snapshot */
+static void snap_drop_pgno(struct snap *s, int pgno)
+{
+	int i, k = 0;
+	for (i = 0; i < s->nk; i++)
+		if (s->pg[i].pgno != pgno) { if (k != i) s->pg[k] = s->pg[i]; k++; }
+	s->nk = k;
+}
+
+static struct snap SX;
+
+/* uncorrectable header: some subset of the pages in progress is abandoned, nothing else.
+ * A BTT, MPT or MOT in progress is a special case: the decoder applies each of their rows to the network or
+ * magazine state when it arrives and stores the page itself when it terminates.  Abandoning such a table
+ * cannot take back the rows which came before the damaged header; it loses the rows behind it and does not
+ * store the page.  For these there is a second form of "abandoned": the packets behind the damaged header
+ * are removed, and whether the table page itself is in the cache is not compared. */
 static int check_header_rule(const struct snap *cur, int pi)
 {
-	int cand[10], nc = 0, m, i, sub;
+	int cand[10], cmode[10], nc = 0, m, i, sub;
 	static uint8_t skip[F_SLOTS];
 	/* transmissions in progress at packet pi: open in any magazine, terminated by it, or opened by it */
 	for (i = 0; i < n_tx; i++)
-		if (txs[i].hdr_pos <= pi && pi <= txs[i].term_pos && nc < 10) cand[nc++] = i;
+		if (txs[i].hdr_pos <= pi && pi <= txs[i].term_pos && nc < 10) { cmode[nc] = 0; cand[nc++] = i; }
 	/* A header repeating the page number of the page in progress (next subpage of a carousel sent
 	   right behind, no erase flag) continues that page for this decoder in every run, the fault-free
 	   one included.  So the transmission in front of such a header is still in progress with it, and
@@ -690,13 +1309,25 @@ static int check_header_rule(const struct snap *cur, int pi)
 	for (m = 0; m < nc; m++)
 		if (f_b2b[cand[m]] && nc < 10) {
 			for (i = 0; i < nc; i++) if (cand[i] == cand[m] - 1) break;
-			if (i == nc) cand[nc++] = cand[m] - 1;
+			if (i == nc) { cmode[nc] = 0; cand[nc++] = cand[m] - 1; }
 		}
+	for (m = nc - 1; m >= 0; m--)
+		if (kind_immediate(f_tx_kind[cand[m]]) && txs[cand[m]].hdr_pos < pi && nc < 10) { cmode[nc] = 1; cand[nc++] = cand[m]; }
 	for (sub = 0; sub < (1 << nc); sub++) {
+		int drop[10], nd = 0, twice = 0;
+		for (m = 0; m < nc; m++)
+			if (cmode[m] == 1 && (sub & (1 << m)))
+				for (i = 0; i < nc; i++) if (i != m && cand[i] == cand[m] && (sub & (1 << i))) twice = 1;
+		if (twice) continue;
 		memcpy(f_alt, pks, sizeof pks[0] * (size_t)n_pk);
 		memset(skip, 0, sizeof skip);
 		for (m = 0; m < nc; m++) {
 			if (!(sub & (1 << m))) continue;
+			if (cmode[m] == 1) {
+				for (i = pi + 1; i < n_pk; i++) if (pks[i].tx == cand[m]) skip[i] = 1;
+				drop[nd++] = txs[cand[m]].pgno;
+				continue;
+			}
 			for (i = 0; i < n_pk; i++) {
 				if (pks[i].tx != cand[m]) continue;
 				if (pks[i].kind == PK_HEADER) {
@@ -709,12 +1340,86 @@ static int check_header_rule(const struct snap *cur, int pi)
 		}
 		/* an own header that was abandoned never opened its page */
 		run_stream(f_alt, n_pk, skip, &SA);
-		if (!snap_cmp(cur, &SA, 0)) return (int)tx_pop((unsigned)sub) + 1;
+		if (nd) {
+			SX = *cur;
+			for (i = 0; i < nd; i++) { snap_drop_pgno(&SX, drop[i]); snap_drop_pgno(&SA, drop[i]); }
+			if (!snap_cmp(&SX, &SA, 0)) { vf_count("headers_uncorrectable_table_in_progress_cut_short", 1); return (int)tx_pop((unsigned)sub) + 1; }
+		} else if (!snap_cmp(cur, &SA, 0)) return (int)tx_pop((unsigned)sub) + 1;
 		vf_log("  abandoned set 0x%x: %s\n", sub, f_why);
 		if (vf_verbose) { int q; for (q = 0; q < SA.nk; q++) vf_log("     ref key %03x/%02x\n", SA.pg[q].pgno, SA.pg[q].subno);
 			for (q = 0; q < cur->nk; q++) vf_log("     cur key %03x/%02x\n", cur->pg[q].pgno, cur->pg[q].subno); }
 	}
 	return 0;
+}
+
+/* Reports of the one named cause below do not end the case (the other faults of the packet are still injected and judged). */
+static int f_soft;
+#define F_HARD_FAILED() (vf_failed() - f_soft > 0)
+
+/* Transmission ti of the object page: does the decoder not know the function of the page when its packets arrive (no
+ * MIP which declares it has terminated before), is the erase flag clear, and was the page stored before? */
+static int pop_row_held_function_unknown(int ti)
+{
+	int i, e1, e2, held = 0;
+	if (ti < 0 || f_tx_kind[ti] != PK_POP || (txs[ti].ctl & CB(4))) return 0;
+	for (i = 0; i < n_tx; i++) {
+		if (i != ti && f_tx_kind[i] == PK_POP && txs[i].term_pos >= 0 && txs[i].term_pos <= txs[ti].hdr_pos) held = 1;
+		if (!f_tx_kind[i] && (txs[i].pgno & 0xFF) == 0xFD && (txs[i].pgno >> 8) == (f_pop_pgno >> 8) && f_hex_pgno
+		    && mip_slot(f_pop_pgno & 0xFF, &e1) == mip_slot(f_hex_pgno & 0xFF, &e2) && e1 < 20
+		    && txs[i].term_pos >= 0 && txs[i].term_pos <= txs[ti].hdr_pos) return 0;
+	}
+	return held;
+}
+
+/* Evidence that the system pages of the extension do something the snapshot can see (fault-free run S0). */
+static void count_new_coverage(void)
+{
+	static uint8_t skip[F_SLOTS];
+	int i, k, l;
+	if (f_fam_top) {
+		int changed = 0, nav = 0;
+		vf_count("transmissions_with_top_tables", 1);
+		/* the same transmission without the Basic TOP Table */
+		memset(skip, 0, sizeof skip);
+		for (i = 0; i < n_pk; i++) if (pks[i].tx >= 0 && f_tx_kind[pks[i].tx] == PK_BTT) skip[i] = 1;
+		run_stream(pks, n_pk, skip, &SX);
+		for (i = 0; i < n_tx; i++) {
+			int x = txs[i].pgno - 0x100;
+			if (f_tx_kind[i]) continue;
+			if (S0.cls[x] != SX.cls[x] || S0.clsub[x] != SX.clsub[x]) changed = 1;
+		}
+		for (i = 0; i < 0x800; i++) if (S0.cls[i] != SX.cls[i]) { vf_count("page_numbers_classified_differently_because_of_btt", 1); }
+		if (changed) vf_count("transmissions_where_btt_changed_classification_of_a_transmitted_page", 1);
+		for (k = 0; k < S0.nk; k++) {
+			int flof = 0, kx = snap_find(&SX, S0.pg[k].pgno, S0.pg[k].subno);
+			for (i = 0; i < n_tx; i++) if (txs[i].pgno == S0.pg[k].pgno && txs[i].subno == S0.pg[k].subno && txs[i].has_flof) flof = 1;
+			if (flof || kx < 0) continue;
+			/* the navigation row and links TOP gives a page without FLOF */
+			if (memcmp(S0.pg[k].nav[1], SX.pg[kx].nav[1], sizeof S0.pg[k].nav[1])
+			    || memcmp(&S0.pg[k].text[1][24 * 41], &SX.pg[kx].text[1][24 * 41], 41 * sizeof(vbi_char))) nav++;
+		}
+		vf_count("pages_with_top_navigation_row", nav);
+		if (nav) vf_count("transmissions_with_top_navigation_row", 1);
+		if (S0.top_ok) vf_count("transmissions_with_top_index_page", 1);
+		vf_count("page_titles_from_ait", S0.n_titles);
+	}
+	if (f_fam_mot) {
+		int shown = 0;
+		static const char *const vn[3] = { "transmissions_with_default_object_from_mot", "transmissions_with_x26_invocation_through_mot", "transmissions_with_x26_invocation_through_x27_4" };
+		vf_count("transmissions_with_mot_and_object_page", 1);
+		vf_count(vn[f_mot_variant], 1);
+		for (k = 0; k < S0.nk; k++) {
+			const vbi_char *a, *b;
+			if (S0.pg[k].pgno != f_obj_pgno) continue;
+			a = &S0.pg[k].text[2][f_obj_row * 41 + f_obj_col]; b = &S0.pg[k].text[1][f_obj_row * 41 + f_obj_col];
+			if (a[0].unicode == 'O' && a[1].unicode == 'b' && a[2].unicode == 'j' && b[0].unicode != 'O') shown++;
+			else vf_log("  page %03x/%04x: level 2.5 U+%04X U+%04X U+%04X, level 1.5 U+%04X\n", S0.pg[k].pgno, S0.pg[k].subno, a[0].unicode, a[1].unicode, a[2].unicode, b[0].unicode);
+		}
+		vf_count("pages_where_level_2p5_differs_from_1p5_because_of_an_object", shown);
+		if (shown) vf_count("transmissions_with_object_displayed_at_level_2p5", 1);
+		else vf_log("  object of page %03x (variant %d, object page %03x, row %d col %d) is not displayed\n", f_obj_pgno, f_mot_variant, f_pop_pgno, f_obj_row, f_obj_col);
+	}
+	(void)l;
 }
 
 static int run_faults(struct vf_rng *r, long idx)
@@ -729,10 +1434,14 @@ static int run_faults(struct vf_rng *r, long idx)
 	vf_rng_seed(&g, vf_seed, 700000u + (uint64_t)tn);
 	f_tn = (int)tn;
 	gen_small_network(&g);
-	if (n_pk > F_SLOTS) n_pk = F_SLOTS;   /* never with these sizes; checked below */
+	if (n_pk > F_SLOTS) {
+		if (pi == 0) vf_fail("harness:C03:transmission-too-long", "transmission %ld has %d packets, the case index has room for %d", tn, n_pk, F_SLOTS);
+		n_pk = F_SLOTS;
+	}
 	if (pi >= n_pk) return 0;
 	p = &pks[pi];
 	f_have_s1 = 0;
+	f_soft = 0;
 	sp_tx = -1;
 	run_stream(pks, n_pk, NULL, &S0);
 	if (pi == 0) {
@@ -742,6 +1451,7 @@ static int run_faults(struct vf_rng *r, long idx)
 		if (f_hex_pgno) vf_count("transmissions_with_hex_page_and_mip", 1);
 		if (f_clock_pgno) vf_count("transmissions_with_four_digit_subcode", 1);
 		vf_count("transmission_packets", n_pk);
+		count_new_coverage();
 		/* the fault-free run itself must be reproducible and contain only transmitted pages */
 		run_stream(pks, n_pk, NULL, &SC);
 		if (snap_cmp(&SC, &S0, 1)) vf_fail("harness:C03:nondeterministic", "two fault-free runs differ: %s", f_why);
@@ -750,7 +1460,7 @@ static int run_faults(struct vf_rng *r, long idx)
 	if (vf_verbose) {
 		int i;
 		for (i = 0; i < n_pk; i++)
-			vf_log("  pkt %3d: mag %d %-6s %2d  %s%03x/%02x%s\n", i, pks[i].mag, pk_kind_name[pks[i].kind], pks[i].row,
+			vf_log("  pkt %3d: mag %d %-6s %2d  %s%03x/%02x%s\n", i, pks[i].mag, f_kind_name(pks[i].kind), pks[i].row,
 			       pks[i].tx >= 0 ? "page " : "", pks[i].tx >= 0 ? txs[pks[i].tx].pgno : 0, pks[i].tx >= 0 ? txs[pks[i].tx].subno : 0,
 			       (pks[i].kind == PK_HEADER && (txs[pks[i].tx].ctl & CB(4))) ? " erase" : "");
 		for (i = 0; i < S0.nev; i++)
@@ -758,9 +1468,9 @@ static int run_faults(struct vf_rng *r, long idx)
 	}
 
 	/* A / B: every single-bit fault */
-	for (j = 0; j < 42 && !vf_failed(); j++) {
+	for (j = 0; j < 42 && !F_HARD_FAILED(); j++) {
 		role = byte_role(p, j);
-		for (b = 0; b < 8 && !vf_failed(); b++) {
+		for (b = 0; b < 8 && !F_HARD_FAILED(); b++) {
 			char what[64];
 			memset(mask, 0, sizeof mask);
 			mask[j] = (uint8_t)(1u << b);
@@ -772,9 +1482,9 @@ static int run_faults(struct vf_rng *r, long idx)
 				nA++;
 				if (snap_cmp(&SC, &S0, 1)) {
 					char key[96];
-					snprintf(key, sizeof key, "model:C03:single-error-not-corrected:%s:%s", pk_kind_name[p->kind], role_name[role]);
+					snprintf(key, sizeof key, "model:C03:single-error-not-corrected:%s:%s", f_kind_name(p->kind), role_name[role]);
 					vf_fail(key, "%s: state differs from the error-free transmission: %s", fault_desc(p, pi, what), f_why);
-				} else vf_sig("kind=%s role=%s outcome=corrected", pk_kind_name[p->kind], role_name[role]);
+				} else vf_sig("kind=%s role=%s outcome=corrected", f_kind_name(p->kind), role_name[role]);
 				break;
 			case RO_TEXT: case RO_HDRTEXT: {
 				const char *bad;
@@ -795,24 +1505,24 @@ static int run_faults(struct vf_rng *r, long idx)
 					const char *o = role == RO_HDRTEXT ? "header-char-blanked"
 						: !snap_cmp(&SC, &S1, 0) ? ((t->prev_rows & (1u << p->row)) ? "row-kept-earlier-content" : "row-stayed-blank")
 						: t->x26_pos[p->row][j - 2] ? "x26-position-accepted" : "row-partially-shown";
-					vf_sig("kind=%s role=%s outcome=%s", pk_kind_name[p->kind], role_name[role], o);
+					vf_sig("kind=%s role=%s outcome=%s", f_kind_name(p->kind), role_name[role], o);
 					vf_count(o, 1);
 				}
 				break; }
 			default:
-				vf_sig("kind=%s role=%s outcome=keys-contained", pk_kind_name[p->kind], role_name[role]);
+				vf_sig("kind=%s role=%s outcome=keys-contained", f_kind_name(p->kind), role_name[role]);
 				break;
 			}
 		}
 	}
 
 	/* C: two bit errors inside one protected byte */
-	for (j = 0; j < 42 && !vf_failed(); j++) {
+	for (j = 0; j < 42 && !F_HARD_FAILED(); j++) {
 		role = byte_role(p, j);
 		if (role == RO_TEXT || role == RO_HDRTEXT || role == RO_UNPROT) continue;
 		nsamp = role == RO_ADDR ? 28 : role == RO_HDRCTL ? (vf_tier ? 28 : 3) : (vf_tier ? 4 : 1);
-		for (b = 0; b < 8 && !vf_failed(); b++)
-			for (b2 = b + 1; b2 < 8 && !vf_failed(); b2++) {
+		for (b = 0; b < 8 && !F_HARD_FAILED(); b++)
+			for (b2 = b + 1; b2 < 8 && !F_HARD_FAILED(); b2++) {
 				char what[64];
 				if (nsamp < 28 && !vf_chance(r, (unsigned)nsamp, 28)) continue;
 				memset(mask, 0, sizeof mask);
@@ -824,10 +1534,21 @@ static int run_faults(struct vf_rng *r, long idx)
 				if (role == RO_ADDR) {
 					need_s1(pi);
 					if (snap_cmp(&SC, &S1, 1)) {
-						char key[96];
-						snprintf(key, sizeof key, "model:C03:uncorrectable-address-changed-state:%s", pk_kind_name[p->kind]);
-						vf_fail(key, "%s: state differs from the transmission without this packet: %s", fault_desc(p, pi, what), f_why);
-					} else vf_sig("kind=%s role=%s outcome=dropped", pk_kind_name[p->kind], role_name[role]);
+						char key[128];
+						const char *ctx = "";
+						snprintf(key, sizeof key, "model:C03:uncorrectable-address-changed-state:%s", f_kind_name(p->kind));
+						/* own key for one cause: the packet (pointer table or the definition of the object which is
+						   displayed) belongs to an object page whose function the decoder does not know at that moment
+						   (no MIP has declared it), the page is retransmitted without erase flag and the cache holds
+						   this packet from an earlier reception: the damaged packet replaces the good one */
+						if (p->kind == PK_POP && j == 2 && (p->row == 1 || p->row == f_obj.dpkt) && pop_row_held_function_unknown(p->tx)) {
+							snprintf(key, sizeof key, "model:C03:uncorrectable-address-changed-state:pop:function-unknown-replaces-held-packet");
+							ctx = " [object page function unknown to the decoder, no erase flag, packet held from an earlier reception]";
+							vf_count("uncorrectable_first_byte_replaced_held_object_page_packet", 1);
+							if (f_soft++) { f_soft--; continue; }      /* once a case */
+						}
+						vf_fail(key, "%s%s: state differs from the transmission without this packet: %s", fault_desc(p, pi, what), ctx, f_why);
+					} else vf_sig("kind=%s role=%s outcome=dropped", f_kind_name(p->kind), role_name[role]);
 				} else if (role == RO_HDRCTL) {
 					int n = check_header_rule(&SC, pi);
 					if (!n && vf_verbose) {
@@ -840,7 +1561,7 @@ static int run_faults(struct vf_rng *r, long idx)
 							fault_desc(p, pi, what), (snap_cmp(&SC, &S0, 0), f_why));
 					else {
 						int rotating = p->kind == PK_HEADER && f_b2b[p->tx];
-						vf_sig("kind=%s role=%s outcome=abandoned-%d%s", pk_kind_name[p->kind], role_name[role], n - 1, rotating ? " between-subpages" : "");
+						vf_sig("kind=%s role=%s outcome=abandoned-%d%s", f_kind_name(p->kind), role_name[role], n - 1, rotating ? " between-subpages" : "");
 						vf_count("headers_uncorrectable", 1);
 						if (rotating) {
 							const struct tx *t0 = &txs[p->tx - 1];   /* the subpage in progress */
@@ -849,11 +1570,11 @@ static int run_faults(struct vf_rng *r, long idx)
 						}
 					}
 				} else
-					vf_sig("kind=%s role=%s outcome=keys-contained-double", pk_kind_name[p->kind], role_name[role]);
+					vf_sig("kind=%s role=%s outcome=keys-contained-double", f_kind_name(p->kind), role_name[role]);
 			}
 	}
 	/* D: bursts, at most two errors per byte; E: the packet is lost */
-	for (b = 0; b < (vf_tier ? 8 : 3) && !vf_failed(); b++) {
+	for (b = 0; b < (vf_tier ? 8 : 3) && !F_HARD_FAILED(); b++) {
 		int start = vf_range(r, 0, 38), len = vf_range(r, 2, 5);
 		memset(mask, 0, sizeof mask);
 		for (j = start; j < start + len && j < 42; j++) {
@@ -863,19 +1584,19 @@ static int run_faults(struct vf_rng *r, long idx)
 		run_faulted(pi, mask, &SC);
 		check_keys(&SC, p, pi, "burst");
 		vf_count("faults_burst", 1);
-		vf_sig("kind=%s role=burst outcome=keys-contained", pk_kind_name[p->kind]);
+		vf_sig("kind=%s role=burst outcome=keys-contained", f_kind_name(p->kind));
 	}
-	if (!vf_failed()) {
+	if (!F_HARD_FAILED()) {
 		need_s1(pi);
 		check_keys(&S1, p, pi, "packet lost");
 		vf_count("faults_dropped_packet", 1);
-		vf_sig("kind=%s role=dropped outcome=keys-contained", pk_kind_name[p->kind]);
+		vf_sig("kind=%s role=dropped outcome=keys-contained", f_kind_name(p->kind));
 	}
 	vf_count("faults_single_hamming", nA);
 	vf_count("faults_single_parity", nB);
 	vf_count("faults_double", nC);
 	vf_count("decoder_runs", f_runs); f_runs = 0;
-	{ char n[32]; snprintf(n, sizeof n, "packets_%s", pk_kind_name[p->kind]); vf_count(n, 1); }
+	{ char n[32]; snprintf(n, sizeof n, "packets_%s", f_kind_name(p->kind)); vf_count(n, 1); }
 	if (p->kind == PK_HEADER && f_b2b[p->tx]) vf_count("packets_header_following_same_page_header", 1);
 	return 1;
 }
